@@ -1,8 +1,8 @@
 /-
   Properties/WaveF.lean — property theorems of wave F (work packages F1, F2, F3, F5; generated with
   tools/restate.py from lean/restate/*.spec: the statements are verbatim copies of the statements in
-  Proofs/AxiomLaws.lean, WindowLaws.lean, OrderApi.lean, Assembled.lean, so that the full statement is
-  visible and audited here). Source of the work list: CLAUSES.md.
+  Proofs/AxiomLaws.lean, WindowLaws.lean, OrderApi.lean, Assembled.lean, SpikeScan.lean, so that the
+  full statement is visible and audited here). Source of the work list: CLAUSES.md.
 -/
 import PySpikeVerif.Proofs.AxiomLaws
 import PySpikeVerif.Proofs.WindowLaws
@@ -95,11 +95,42 @@ theorem spike_scan_zero_only_at_end :
     ValidNE [6] 0 6 ∧ ValidNE [3] 0 6 ∧ (B4_res [6] [3] 0 6 0 false).2.1.isi = 0 :=
   F1_isi_zero_example 
 
-/-- every emitted SPIKE value is 0 or the combination rule applied to positive interval lengths -/
-theorem spike_values_are_quotients_of_positive (kw : Kw) (a b : Train) (ha : ValidTrain a)
-    (hb : ValidTrain b) (hts : b.ts = a.ts) (hte : b.te = a.te) :
-    ∀ v ∈ (spikeProfileBi kw a b).y1 ++ (spikeProfileBi kw a b).y2, F1_Finite kw.mrts kw.ri v :=
-  F1_spikeProfileBi_values_finite kw a b ha hb hts hte
+/-- the instrumented trace used in `spike_scan_denominators_pos` IS the scan of the SPIKE profile: same events as the loop (`B4_res`), configurations chained from the two start states to the loop's final states, every event computed from the two configurations of its iteration by the displayed formulas (all inputs) -/
+theorem spike_scan_trace_is_the_scan (t1 t2 : List Q) (ts te m : Q) (ri : Bool) :
+    (F1_spikeSteps t1 t2 ts te m ri).map (·.2.2) = (B4_res t1 t2 ts te m ri).1 ∧
+    F1_linked ((B4_init t1 t2 ts te).1, (B4_init t2 t1 ts te).1) (F1_spikeSteps t1 t2 ts te m ri)
+      (B4_res t1 t2 ts te m ri).2 ∧
+    ∀ rec ∈ F1_spikeSteps t1 t2 ts te m ri, F1_RecOK m ri rec :=
+  F1_spikeSteps_spec t1 t2 ts te m ri
+
+/-- with positive interval lengths every denominator of the combination rule is positive (plain, RI and MRTS-adaptive) -/
+theorem combination_rule_denominators_pos (i1 i2 m : Q) (h1 : 0 < i1) (h2 : 0 ≤ i2) :
+    0 < (i1 + i2) / 2 ∧ 0 < max m ((i1 + i2) / 2) ∧ 0 < (i1 + i2) / 2 * max m ((i1 + i2) / 2) :=
+  F1_distAtT_den_pos i1 i2 m h1 h2
+
+end PySpike.C18
+
+namespace PySpike.C18
+open PySpike PySpike.C01
+
+/-- `spikeProfile` is assembled from the loop result `B4_res` exactly like this: first value from the two start states, right values of the events (the one at `t_end` dropped), left values of the events, closing value from the final states when no spike lies on `t_end` -/
+theorem spike_profile_is_assembled_from_the_scan (t1 t2 : List Q) (ts te m : Q) (ri : Bool) :
+    spikeProfile t1 t2 ts te m ri =
+      if (ts :: (B4_res t1 t2 ts te m ri).1.map (·.1)).getLast? = some te then
+        (ts :: (B4_res t1 t2 ts te m ri).1.map (·.1),
+         (distAtT (B4_init t1 t2 ts te).1.isi (B4_init t2 t1 ts te).1.isi
+            (B4_init t1 t2 ts te).2.2.2 (B4_init t2 t1 ts te).2.2.2 m ri
+            :: (B4_res t1 t2 ts te m ri).1.map (·.2.2)).dropLast,
+         (B4_res t1 t2 ts te m ri).1.map (·.2.1))
+      else
+        ((ts :: (B4_res t1 t2 ts te m ri).1.map (·.1)) ++ [te],
+         distAtT (B4_init t1 t2 ts te).1.isi (B4_init t2 t1 ts te).1.isi
+            (B4_init t1 t2 ts te).2.2.2 (B4_init t2 t1 ts te).2.2.2 m ri
+            :: (B4_res t1 t2 ts te m ri).1.map (·.2.2),
+         (B4_res t1 t2 ts te m ri).1.map (·.2.1) ++
+           [distAtT (B4_res t1 t2 ts te m ri).2.1.isi (B4_res t1 t2 ts te m ri).2.2.isi
+              (B4_res t1 t2 ts te m ri).2.1.dtf (B4_res t1 t2 ts te m ri).2.2.dtf m ri]) :=
+  B4_spikeProfile_unfold t1 t2 ts te m ri
 
 end PySpike.C18
 
